@@ -3,11 +3,13 @@ package main
 
 import (
 	"verif/sim/kernel"
+	"verif/sim/props/c06"
 	"verif/sim/props/c07"
 )
 
 func main() {
 	kernel.Main(map[string]kernel.Property{
+		"C06": c06.Prop{},
 		"C07": c07.Prop{},
 	})
 }
